@@ -379,7 +379,7 @@ def _serialize_element(
     buffer.write(b">")
 
     child_indent = INDENT * (indent + 1)
-    if (element.text or "").strip():
+    if element.text and (len(element) == 0 or element.text.strip()):
         pos = _serialize_text(
             buffer,
             element.text,
